@@ -226,7 +226,7 @@ def pat_accepts(pat, scrut, val):
     if cm is not None:
         return True
     if "|" in pat and not pat.startswith("("):
-        rs = [pat_accepts(p_, scrut, val) for p_ in pat.split("|")]
+        rs = [pat_accepts(p_, scrut, val) for p_ in _split_top(pat.replace("|", ","))] if "(" not in pat else [pat_accepts(p_, scrut, val) for p_ in pat.split("|")]
         return True if any(r is True for r in rs) else (None if any(r is None for r in rs) else False)
     if pat == "_" or re.match(r"^(ref )?(mut )?[a-z_][a-z_0-9]*$", pat):
         return True
@@ -237,6 +237,12 @@ def pat_accepts(pat, scrut, val):
         rs = [pat_accepts(p_, s_, val) for p_, s_ in zip(ps, ss)]
         return False if any(r is False for r in rs) else (None if any(r is None for r in rs) else True)
     v = val.get(scrut.strip())
+    if isinstance(v, str):
+        # the scrutinee is sampled as "this enum variant"
+        head = re.split(r"[{(]", pat, 1)[0].strip()
+        if re.match(r"^(?:\w+::)+\w+$", head):
+            return head == v or head.endswith("::" + v.rsplit("::", 1)[-1]) and head.rsplit("::", 1)[-1] == v.rsplit("::", 1)[-1]
+        return None
     if v is None:
         return None
     if pat == "MAX" or pat.endswith("::MAX"):
@@ -296,6 +302,8 @@ def run_path(path, val):
         if ev.kind == "let" and ev.node is not None and isinstance(ev.node, dict) and ev.node.get("init") is not None \
                 and (ev.node.get("pat") or {}).get("k") == "Binding":
             v = eval_node(ev.node["init"], val)
+            if v is None and (ev.b in ("true", "false") or re.match(r"^\d+$", ev.b or "")):
+                v = (ev.b == "true") if ev.b in ("true", "false") else int(ev.b)      # the value the initialiser took on this path
             if v is not None:
                 val[ev.a] = v          # a copy of a sampled value under another name
                 continue
@@ -311,8 +319,9 @@ def run_path(path, val):
             r = pat_accepts(ev.b, ev.a or "", val)
             if r is False:
                 return False, val
-            if r is None:
-                unknown = True
+            if r is None and any(re.search(r"(?<![\w.])%s(?![\w(])" % re.escape(k_), ev.a or "") for k_ in val if isinstance(k_, str)):
+                unknown = True      # (a decision about something that is not sampled does not make the path doubtful:
+                                    #  its sibling paths are feasible as well and the caller sees more than one)
             for q in ev.c or ():
                 rq = pat_accepts(q, ev.a or "", val)
                 if rq is True:
